@@ -47,7 +47,7 @@ def raw_values(draw, t, n):
 @st.composite
 def cases(draw, noop=False):
     t = draw(st.sampled_from(RAW_TYPES))
-    graph = draw(SC.scale_graph(t, noop=noop))
+    graph = draw(SC.scale_graph(t, noop=noop, max_scales=5 if draw(st.integers(0, 7)) else 13))
     level = draw(st.sampled_from(['channel', 'channel', 'group', 'root']))
     other = None
     if draw(st.booleans()):
